@@ -9,10 +9,12 @@ import (
 	"math"
 	"sort"
 	"strings"
+	"sync/atomic"
 
 	hdf5 "github.com/scigolib/hdf5"
 	"github.com/scigolib/hdf5/internal/core"
 	"github.com/scigolib/hdf5/internal/zzverif/ev"
+	"github.com/scigolib/hdf5/internal/zzverif/pools"
 )
 
 // Res is the outcome of one reader call.
@@ -128,6 +130,7 @@ type Obj struct {
 
 	Read    []uint64 `json:"read,omitempty"` // float64 bit patterns
 	ReadRes Res      `json:"read_res"`
+	Reread  string   `json:"reread,omitempty"` // Options.Twice: how a second Read differed
 
 	Strings    []string `json:"strings,omitempty"`
 	StringsRes Res      `json:"strings_res"`
@@ -214,8 +217,11 @@ func (d *Dump) Paths() []string {
 	return out
 }
 
+var guardCalls atomic.Int64
+
 func guard(f func() error) Res {
 	var err error
+	pools.Dirty(guardCalls.Add(1)%64 == 0)
 	site, msg, p := ev.Guard(func() { err = f() })
 	if p {
 		return Res{Panic: ev.PanicClass(msg) + "@" + site}
@@ -235,6 +241,9 @@ func trunc(s string, n int) string {
 
 // Options bound what is read (hostile inputs).
 type Options struct {
+	// Twice: numeric datasets are read a second time after the first result has been
+	// overwritten by the caller; Obj.Reread says how the second result differs ("" = equal)
+	Twice      bool
 	MaxObjects int  // 0 = 10000
 	SkipData   bool // metadata only
 	// MaxElems, when non-zero, skips the data of datasets that declare more elements
@@ -468,6 +477,26 @@ func File(path string, opt Options) *Dump {
 				o.Read = make([]uint64, len(v))
 				for i, e := range v {
 					o.Read[i] = math.Float64bits(e)
+				}
+				if opt.Twice {
+					// the returned slice is the caller's: overwrite it, read again, compare
+					for i := range v {
+						v[i] = -7777.25
+					}
+					v2, err2 := x.Read()
+					switch {
+					case err2 != nil:
+						o.Reread = "second Read failed: " + trunc(err2.Error(), 120)
+					case len(v2) != len(o.Read):
+						o.Reread = fmt.Sprintf("second Read returned %d elements, the first %d", len(v2), len(o.Read))
+					default:
+						for i, e := range v2 {
+							if math.Float64bits(e) != o.Read[i] {
+								o.Reread = fmt.Sprintf("element %d: second Read returned %v, the first %v", i, e, math.Float64frombits(o.Read[i]))
+								break
+							}
+						}
+					}
 				}
 				return nil
 			})
